@@ -19,7 +19,13 @@ or visited / loaded from a source carrying, another generated docstring of any s
 .parsed / parse(...) / as_dict(full=True) / .source read in random combinations; .parser,
 .parser_options, .parent and the line numbers reassigned in random order; the sections obtained
 through parse(style, **options), parse() or the (so far unread) .parsed property and judged by
-the same oracle as for a fresh object.
+the same oracle as for a fresh object.  Half of the texts are WRITTEN DOWN with whitespace
+variants that leave the written structure untouched (gen_writing): margins of 0..16 columns in
+spaces, tabs or both; blank lines carrying nothing, the margin, fewer or more columns, tabs or a
+form feed, wherever a blank line occurs; the text opening on the line after the quotes; trailing
+whitespace-only lines; and 40% of those with a parent are placed as the real docstring literal in
+the parent's source (LF or CRLF) and read back through the visitor or the loader, CPython's
+ast.get_docstring + inspect.cleandoc being the ground truth for Docstring.value.
 
 Oracle: an executable model of the documentation (``expect``) written independently of the
 parsers, compared field by field with the parsed sections (kinds, order, titles, names,
@@ -48,7 +54,11 @@ RULE = ("random section lists of 2..8 sections over the kinds each style support
         "structure, function parents spelling Iterator / Generator / tuple through 13 import forms x {plain, quoted, postponed} "
         "(import paths of 1..3 dots) with the signature fallback confirmed by CPython's get_type_hints; 35% of the texts assigned to a "
         "Docstring object with a random history (constructed / visited / loaded with another docstring, reads of lines / parsed / parse / "
-        "as_dict / source, reassigned parser, options, parent, line numbers, three ways to obtain the sections) instead of a fresh one; all parser options drawn at random (2^8 Google, 2^3 Numpy, 2 Sphinx); 8% of the structures carry exactly one "
+        "as_dict / source, reassigned parser, options, parent, line numbers, three ways to obtain the sections) instead of a fresh one; "
+        "50% of the texts written down with whitespace variants that do not change what is written (margin 0..16 in spaces/tabs/both, "
+        "blank lines carrying 0..n columns of spaces, tabs or a form feed in every position, text opening on the next line, trailing "
+        "whitespace-only lines; 40% of them as the parent's real docstring literal in a LF or CRLF source read by the visitor or the "
+        "loader): a blank line is blank whatever whitespace it carries; all parser options drawn at random (2^8 Google, 2^3 Numpy, 2 Sphinx); 8% of the structures carry exactly one "
         "documented-but-suspicious construct (type field after its param, '):' inside a description, untyped attribute after a "
         "typed one, documented Numpy alias, lone Numpy name) so that the listed findings stay observable. distinct = digest of (style, options, "
         "structure); non-trivial = >=3 sections and one item with a multi-paragraph description")
@@ -60,7 +70,9 @@ LEVEL_TEXT = ("Each generated structure is rendered in the well-formed syntax of
               "an untyped Yields / Receives / Returns item documents is decided by CPython (the parent is executed and its "
               "get_type_hints are taken apart with get_origin / get_args), independently of how the module imports the names. "
               "The verdict is the same whether the text was given to a new Docstring or assigned to one that was read, parsed, "
-              "visited or loaded before; Docstring.lines must equal str.split of the text the object holds.")
+              "visited or loaded before; Docstring.lines must equal str.split of the text the object holds. Whitespace carried by blank "
+              "lines, margins, tabs, line endings of the source do not change the expected structure; for docstrings read from source "
+              "Docstring.value must equal inspect.cleandoc of the literal CPython's ast reads from the same file.")
 LEVEL_NOTE = ("trusted: the three renderers and the model of docs/reference/docstrings.md in this file; corners the documentation "
               "leaves open are excluded (trailing newline of Numpy descriptions, leading newline of Google descriptions that start "
               "on a new line, Returns fallback from Generator annotations, annotations of properties); sampled, not exhaustive")
@@ -73,14 +85,27 @@ REQUIRED_COUNTERS = ["structures_parsed", "sections_compared", "items_compared",
                      "annotations_through_deep_import_path_wrapper_compared", "cpython_signature_parts_confirmed",
                      "reused_object_cases_judged", "reused_after_text_was_read_or_parsed", "reused_after_lines_read", "reused_after_parse",
                      "reused_visited_or_loaded_object_cases", "reused_loaded_object_cases", "reused_with_parser_attributes_reassigned",
-                     "reused_with_parent_reassigned", "reused_judged_through_parsed_property", "lines_compared_with_value"]
+                     "reused_with_parent_reassigned", "reused_judged_through_parsed_property", "lines_compared_with_value",
+                     "whitespace_written_cases_judged", "cases_with_whitespace_only_lines_after_cleandoc",
+                     "cases_with_whitespace_only_line_above_an_unindented_line", "cases_with_whitespace_only_line_inside_an_indented_block",
+                     "docstrings_read_from_source_judged", "docstrings_loaded_from_disk_judged", "crlf_source_cases_judged",
+                     "source_docstring_values_compared_with_cpython_cleandoc", "tab_cases_judged", "form_feed_cases_judged",
+                     "text_opening_on_the_next_line_cases_judged", "trailing_whitespace_line_cases_judged"]
 EXHAUSTIVE = {"quick": False, "thorough": False}
 ASSUMPTIONS = ["'well-formed' means the syntax shown in docs/reference/docstrings.md (plus the Sphinx field-list syntax the docs link to)",
+               "a blank line is blank whatever whitespace it carries (spaces, tabs, form feed; fewer or more columns than the margin): the "
+               "written structure does not depend on it, nor on the margin the docstring sits at in its source, on tabs versus spaces in "
+               "that margin (inspect.cleandoc expands tabs), on the text opening on the line after the quotes, on trailing whitespace-only "
+               "lines, or on the line endings of the source file (CPython reads \\r\\n as a newline)",
+               "excluded whitespace variants: a carriage return inside a Docstring value (CPython never produces one from a line ending; "
+               "the parsers document split at '\\n'); a form feed in a Google docstring parsed with *_multiple_items=False (that block goes "
+               "through str.splitlines, for which a form feed is a line boundary); whitespace at the end of non-blank lines (it is content)",
                "types are drawn from a pool of expressions whose str() is canonical; descriptions avoid section syntax of their own"]
 SHARD_TIMEOUT = {"quick": 900, "thorough": 7200}
 
 STRUCTURES = {"quick": 18000, "thorough": 100_000}    # per style
 NSHARDS = 15
+WRITING_SHARE = 0.5    # share of the structures written down with whitespace variants (see gen_writing)
 REUSE_SHARE = 0.35     # share of the structures whose text is assigned to a Docstring object with a history (see gen_history)
 STYLES = ("google", "numpy", "sphinx")
 
@@ -687,6 +712,184 @@ def _wrap(lines: list[str], wrap: int) -> str:
     return "\n".join(lines)
 
 
+# How a well-formed docstring is WRITTEN DOWN (struct["writing"]): none of this changes what was written.
+#   margin        columns in front of every line but the first (the docstring sits in indented source), 0..16
+#   margin_style  the margin spelled with spaces, with tabs, or alternating (inspect.cleandoc expands tabs to 8 columns first)
+#   open          text starts right after the opening quotes, or on the next line (first line empty / whitespace-only)
+#   fills         what the blank lines carry, cycled over them in order: nothing, the margin, less, more (an editor that
+#                 auto-indents blank lines to the depth of the block above), tabs, form feeds; wherever a blank line occurs:
+#                 inside descriptions, between sections, between the summary and the first section, inside examples, in prose
+#   tail          whitespace-only lines after the last line (closing-quotes line, trailing blank lines)
+def gen_writing(rng: random.Random, struct: dict) -> dict:
+    margin = rng.choice([0, 0, 2, 4, 4, 8, 8, 8, 12, 16])
+
+    def fill() -> str:
+        r = rng.randrange(11)
+        if r == 0:
+            return ""
+        if r == 1:
+            return " " * margin
+        if r == 2:
+            return " " * rng.randrange(margin + 1)
+        if r <= 6:  # noqa: PLR2004
+            return " " * (margin + rng.choice([1, 2, 4, 4, 4, 8, 12]))
+        if r == 7:  # noqa: PLR2004
+            return "\t" * rng.choice([1, 2, 3])
+        if r == 8:  # noqa: PLR2004
+            return " " * margin + rng.choice([" \t", "\t ", "  \t  "])
+        if r == 9:  # noqa: PLR2004
+            return " " * rng.choice([0, margin, margin + 4]) + "\f"
+        return " " * (margin + 4) + "\f "
+
+    fills = [fill() for _ in range(rng.choice([1, 2, 3, 5]))]
+    if struct["style"] == "google" and any(sec.get("multiple") is False for sec in struct.get("sections", [])):
+        # excluded: with *_multiple_items=False the Google parser takes the block "verbatim" through str.splitlines, for which
+        # CPython documents the form feed as a line boundary (str.split("\n") and inspect.cleandoc do not): what one form-feed
+        # line "is" is not defined there, so no form feed is written into such docstrings
+        fills = [f.replace("\f", " ") for f in fills]
+    w = {"margin": margin, "margin_style": rng.choice(["spaces", "spaces", "tabs", "mixed"]) if margin and margin % 8 == 0 else "spaces",
+         "open": rng.choice(["same-line"] * 3 + ["next-line", "next-line", "next-line-ws"]),
+         "fills": fills,
+         "tail": rng.choice([[], [" " * margin], [" " * margin], ["", " " * margin], ["\t"], [" " * (margin + 4), " " * margin], ["   ", "", "\f"]]),
+         "placement": "argument", "crlf": False, "judge": "explicit"}
+    if struct["parent"]["kind"] != "none" and not struct.get("history") and rng.random() < 0.4:
+        # the text is the real docstring of the parent in a source file: the visitor / loader build the Docstring (cleandoc really runs)
+        w["placement"] = rng.choice(["source-visited", "source-visited", "source-visited", "source-loaded"])
+        w["crlf"] = rng.random() < 0.3              # Windows line endings of the source file (CPython reads them as newlines)
+        w["judge"] = rng.choice(["explicit", "parsed"])
+        w["source"] = source_with_docstring(struct["parent"], _write_down_lines(struct, w), literal=True)
+        if w["crlf"]:
+            w["source"] = w["source"].replace("\n", "\r\n")
+    return w
+
+
+def _margin_of(w: dict, index: int) -> str:
+    m = w["margin"]
+    if w["margin_style"] == "tabs" or (w["margin_style"] == "mixed" and index % 2):
+        return "\t" * (m // 8)
+    return " " * m
+
+
+def _write_down(lines: list[str], struct: dict) -> str:
+    w = struct.get("writing")
+    if not w:
+        return _wrap(lines, struct["wrap"])
+    out, nblank = [], 0
+    for i, ln in enumerate(lines):
+        if ln == "":
+            out.append(w["fills"][nblank % len(w["fills"])])
+            nblank += 1
+        else:
+            out.append(ln if (i == 0 and w["open"] == "same-line") else _margin_of(w, i) + ln)
+    if w["open"] != "same-line":
+        out.insert(0, "" if w["open"] == "next-line" else "  ")
+    return "\n".join(out + list(w["tail"]))
+
+
+def _write_down_lines(struct: dict, w: dict) -> str:
+    """The written text of a structure under the writing ``w`` (used while ``w`` is being generated)."""
+    return RENDER[struct["style"]]({**struct, "writing": w})
+
+
+def blank_is_blank(node):  # noqa: ANN001, ANN201
+    """A blank line is blank whatever whitespace it carries: whitespace-only lines of every string leaf become empty lines."""
+    if isinstance(node, str):
+        return "\n".join("" if not ln.strip() else ln for ln in node.split("\n")) if "\n" in node or not node.strip() else node
+    if isinstance(node, list):
+        return [blank_is_blank(v) for v in node]
+    if isinstance(node, dict):
+        return {k: blank_is_blank(v) for k, v in node.items()}
+    return node
+
+
+WS_KEPT = "C13-whitespace-only-lines-kept-as-content"
+
+
+def _drop_trailing_ws_lines(text: str) -> tuple[str, int]:
+    """``text`` without its trailing whitespace-only lines when at least one of them carries whitespace (else untouched)."""
+    lines = text.split("\n")
+    k = len(lines)
+    while k > 1 and not lines[k - 1].strip():
+        k -= 1
+    if k == 1 and not lines[0].strip():
+        k = 0
+    if not any(lines[k:]):          # nothing dropped, or only truly empty lines: the parsers handle those themselves
+        return text, 0
+    return "\n".join(lines[:k]), 1
+
+
+def without_kept_whitespace(obs: list[dict], style: str = "google", options: dict | None = None) -> tuple[list[dict], list[str]]:
+    """The observation as it would be had the blank lines been empty: see the known finding WS_KEPT.
+
+    Whitespace-only lines that were written as blank lines are *blank*; the parsers trim trailing empty lines from text
+    sections, blocks and example prose with rstrip("\\n") and decide "is there any text" by truthiness, so such a line at the
+    end of a value stays, and a text section made of nothing else appears. Returns the repaired observation and what was
+    repaired (JSON paths); every other field is left exactly as observed.
+
+    Only the values the mechanism reaches are repaired: Google text sections, admonition bodies, example prose and the verbatim
+    block of a Returns / Yields / Receives section read with *_multiple_items=False; Numpy example prose; nothing in Sphinx
+    (elsewhere the parsers already turn whitespace-only lines into empty ones, and a difference there is a VIOLATION).
+    """
+    out, repaired = [], []
+    if style == "sphinx":
+        return obs, repaired
+    options = options or {}
+    single_block = {"returns": not opt(options, "returns_multiple_items"), "yields": not opt(options, "returns_multiple_items"),
+                    "receives": not opt(options, "receives_multiple_items")}
+    for i, sec in enumerate(obs):
+        sec = dict(sec)  # noqa: PLW2901
+        if style == "numpy" and sec["kind"] != "examples":
+            pass
+        elif "items" in sec and not single_block.get(sec["kind"]):
+            pass
+        elif sec["kind"] == "text":
+            if sec["value"] and not sec["value"].strip():
+                repaired.append(f"{i}: whitespace-only text section")
+                continue
+            sec["value"], n = _drop_trailing_ws_lines(sec["value"])
+            if n:
+                repaired.append(f"{i}/value")
+        elif sec["kind"] == "admonition":
+            sec["description"], n = _drop_trailing_ws_lines(sec["description"])
+            if n:
+                repaired.append(f"{i}/description")
+        elif sec["kind"] == "examples":
+            blocks = []
+            for b, (k, t) in enumerate(sec["blocks"]):
+                if k == "text" and t and not t.strip():
+                    repaired.append(f"{i}/blocks/{b}: whitespace-only prose block")
+                    continue
+                t2, n = _drop_trailing_ws_lines(t) if k == "text" else (t, 0)
+                if n:
+                    repaired.append(f"{i}/blocks/{b}")
+                blocks.append([k, t2])
+            sec["blocks"] = blocks
+        elif "items" in sec:
+            items = []
+            for j, it in enumerate(sec["items"]):
+                it = dict(it)  # noqa: PLW2901
+                it["description"], n = _drop_trailing_ws_lines(it["description"])
+                if n:
+                    repaired.append(f"{i}/items/{j}/description")
+                items.append(it)
+            sec["items"] = items
+        out.append(sec)
+    return out, repaired
+
+
+def tree_without_kept_whitespace(tree: list) -> list:
+    """The same repair on the JSONEncoder form (only what moves JSON paths: whitespace-only text sections and prose blocks)."""
+    out = []
+    for d in tree:
+        v = d.get("value")
+        if d.get("kind") == "text" and isinstance(v, str) and v and not v.strip():
+            continue
+        if d.get("kind") == "examples" and isinstance(v, list):
+            d = {**d, "value": [b for b in v if not (b[0] == "text" and b[1] and not b[1].strip())]}  # noqa: PLW2901
+        out.append(d)
+    return out
+
+
 def _desc_lines(desc: dict, indent: int) -> list[str]:
     return [" " * (indent + r) + ln if ln else "" for ln, r in zip(desc["lines"], desc["rel"])]
 
@@ -728,7 +931,7 @@ def render_google(struct: dict) -> str:  # noqa: C901, PLR0912
                     first = (head + desc["lines"][0]) if head else desc["lines"][0]
                     out.append(pad + first)
                     out.extend(_desc_lines({"lines": desc["lines"][1:], "rel": desc["rel"][1:]}, cont))
-    return _wrap(out, struct["wrap"])
+    return _write_down(out, struct)
 
 
 def google_item_head(kind: str, it: dict, sec: dict) -> str:
@@ -777,7 +980,7 @@ def render_numpy(struct: dict) -> str:  # noqa: C901, PLR0912
             for it in sec["items"]:
                 out.append(numpy_item_head(kind, it))
                 out.extend(_desc_lines(it["desc"], 4))
-    return _wrap(out, struct["wrap"])
+    return _write_down(out, struct)
 
 
 def numpy_item_head(kind: str, it: dict) -> str:  # noqa: PLR0911
@@ -824,7 +1027,7 @@ def render_sphinx(struct: dict) -> str:
         lines = f["desc"]["lines"]
         out.append(head + (f" {lines[0]}" if lines else ""))
         out.extend(" " * ci + ln if ln else "" for ln in lines[1:])
-    return _wrap(out, struct["wrap"])
+    return _write_down(out, struct)
 
 
 RENDER = {"google": render_google, "numpy": render_numpy, "sphinx": render_sphinx}
@@ -1116,7 +1319,8 @@ def expected_token_tree(exp: list[dict]) -> list:
 # ------------------------------------------------------------------------------------------
 # mechanism classifiers
 ALL_FINDINGS = ["C13-sphinx-type-field-after-param-ignored", "C13-numpy-documented-alias-unsupported",
-                "C13-numpy-lone-name-parsed-as-type", "C13-google-returns-greedy-type", "C13-google-attribute-annotation-leak"]
+                "C13-numpy-lone-name-parsed-as-type", "C13-google-returns-greedy-type", "C13-google-attribute-annotation-leak",
+                "C13-whitespace-only-lines-kept-as-content"]
 
 
 def dropped_summary(struct: dict) -> int:
@@ -1304,9 +1508,10 @@ def cpython_signature_parts(struct: dict) -> tuple[bool, str]:
 READ_OPS = ["lines", "lines", "parsed", "parse-old-style", "parse-case-style", "as-dict-full", "source"]
 
 
-def source_with_docstring(parent: dict, doc: str) -> str:
+def source_with_docstring(parent: dict, doc: str, *, literal: bool = False) -> str:
     """The parent's source with ``doc`` written as the docstring of the documented object (a literal, so any text is safe)."""
-    src, path, lit = parent["source"], parent["path"], repr(doc)
+    src, path = parent["source"], parent["path"]
+    lit = '"""' + doc.replace("\\", "\\\\").replace('"', '\\"') + '"""' if literal else repr(doc)
     if path == "":
         return lit + "\n" + src
     if path == "K":
@@ -1460,6 +1665,54 @@ def run_history(rec, struct: dict, text: str):  # noqa: ANN001, ANN201, C901, PL
     return ds, sections
 
 
+def run_from_source(rec, struct: dict, text: str):  # noqa: ANN001, ANN201
+    """The written text is the parent's real docstring in a source file; the visitor / loader build the Docstring object.
+
+    Returns (docstring, sections, mismatches). CPython reads the same file first (ast.parse + ast.get_docstring(clean=False)):
+    the literal must be the written text (harness self-check) and Docstring.value must be inspect.cleandoc of it.
+    """
+    import ast
+    import inspect
+
+    from vf.core.util import load_files, visit_source
+
+    w = struct["writing"]
+    style, options, path = struct["style"], struct["options"], struct["parent"]["path"]
+    node = ast.parse(w["source"])
+    for part in (path.split(".") if path else []):
+        node = next(n for n in node.body if getattr(n, "name", None) == part)
+    raw = ast.get_docstring(node, clean=False)
+    if raw != text:
+        raise HarnessError(f"CPython reads another docstring from the generated source than the written text: {raw!r:.120}")
+    by_attr = w["judge"] == "parsed"
+    if w["placement"] == "source-visited":
+        kw = {"docstring_parser": style, "docstring_options": dict(options)} if by_attr else {}
+        mod = visit_source(w["source"], "vfc13", **kw)
+    else:
+        mod, _loader = load_files({"vfc13.py": w["source"]}, "vfc13", docstring_parser=style if by_attr else None)
+    obj = mod[path] if path else mod
+    ds = obj.docstring
+    if ds is None:
+        raise HarnessError("the object read from source has no docstring")
+    mism = []
+    want_value = inspect.cleandoc(raw.rstrip())
+    rec.count("source_docstring_values_compared_with_cpython_cleandoc")
+    if ds.value != want_value:
+        mism.append({"path": ["value"], "what": "Docstring.value of the object read from source is not inspect.cleandoc of the literal CPython reads",
+                     "observed": ds.value[:200], "expected": want_value[:200]})
+    if by_attr:
+        ds.parser_options = dict(options)
+        sections = ds.parsed
+    else:
+        sections = ds.parse(style, **options)
+    rec.count("docstrings_read_from_source_judged")
+    if w["placement"] == "source-loaded":
+        rec.count("docstrings_loaded_from_disk_judged")
+    if w["crlf"]:
+        rec.count("crlf_source_cases_judged")
+    return ds, sections, mism
+
+
 _PARENTS: dict[str, object] = {}
 
 
@@ -1492,8 +1745,12 @@ def run_case(rec, struct: dict) -> None:  # noqa: ANN001, C901, PLR0912
         tags.append("reused:" + struct["history"]["origin"])
     try:
         with case_watchdog(60):
+            extra_mism: list[dict] = []
+            writing = struct.get("writing")
             if struct.get("history"):
                 ds, sections = run_history(rec, struct, text)
+            elif writing and writing["placement"] != "argument":
+                ds, sections, extra_mism = run_from_source(rec, struct, text)
             else:
                 parent = parent_object(struct)
                 ds = griffe.Docstring(text, lineno=1, endlineno=1 + text.count("\n"), parent=parent)
@@ -1501,7 +1758,13 @@ def run_case(rec, struct: dict) -> None:  # noqa: ANN001, C901, PLR0912
             rec.count("structures_parsed")
             lines_now, lines_want = ds.lines, inspect.cleandoc(text.rstrip()).split("\n")
             obs = observe(sections)
+            kept_ws: list[str] = []
+            if writing:
+                obs, kept_ws = without_kept_whitespace(obs, style, struct["options"])
+                obs = blank_is_blank(obs)
             tree = json.loads(json.dumps(sections, cls=griffe.JSONEncoder))
+            if kept_ws:
+                tree = tree_without_kept_whitespace(tree)
             rec.count("json_roundtrips")
     except CaseTimeout:
         rec.inconclusive(case, "per-case wall-clock watchdog fired")
@@ -1527,7 +1790,9 @@ def run_case(rec, struct: dict) -> None:  # noqa: ANN001, C901, PLR0912
         rec.add_to_set("wrapper_spellings_compared", struct["parent"]["spelling"]["id"]
                        + ("+quoted" if struct["parent"]["spelling"]["quoted"] else "") + ("+future" if struct["parent"]["spelling"]["future"] else ""))
     exp = expect(struct)
-    mism = compare(style, exp, obs, rec)
+    mism = compare(style, exp, obs, rec) + extra_mism
+    if writing:
+        count_writing(rec, writing, lines_want)
     rec.count("lines_compared_with_value")
     if lines_now != lines_want:         # CPython's str.split over the text the object holds
         mism.append({"path": ["lines"], "what": "Docstring.lines is not the text the object holds, split at newlines",
@@ -1548,6 +1813,10 @@ def run_case(rec, struct: dict) -> None:  # noqa: ANN001, C901, PLR0912
         fid = classify(struct, exp, obs, mism)
         rec.fail(case, f"{style}: parsed structure differs from the written one: " + "; ".join(sorted({m['what'] for m in mism}))[:200],
                  observed=mism[:6], expected="the generating structure (see struct)", finding=fid, nontrivial=nt, tags=tags, tried=ALL_FINDINGS)
+    elif kept_ws:
+        # everything else is exactly as written (full oracle above, token conservation included): only the named defect remains
+        rec.fail(case, f"{style}: whitespace-only separator lines came back as content", observed=kept_ws[:8],
+                 expected="the same sections as with empty blank lines", finding=WS_KEPT, nontrivial=nt, tags=tags, tried=ALL_FINDINGS)
     else:
         for s in obs:
             rec.add_to_set("section_kinds_compared", f"{style}:{s['kind']}")
@@ -1555,6 +1824,33 @@ def run_case(rec, struct: dict) -> None:  # noqa: ANN001, C901, PLR0912
             bools = {"google": GOOGLE_BOOLS, "numpy": NUMPY_BOOLS, "sphinx": SPHINX_BOOLS}[style]
             rec.add_to_set(f"{style}_option_combinations", "".join("1" if struct["options"].get(n) else "0" for n in bools))
         rec.ok(case, nontrivial=nt, tags=tags)
+
+
+def count_writing(rec, w: dict, lines: list[str]) -> None:  # noqa: ANN001
+    """What the whitespace layer really exercised, read off the cleaned text the parser saw."""
+    rec.count("whitespace_written_cases_judged")
+    residual = [i for i, ln in enumerate(lines) if ln and not ln.strip()]
+    if residual:
+        rec.count("cases_with_whitespace_only_lines_after_cleandoc")
+        rec.count("whitespace_only_lines_parsed", len(residual))
+
+    def next_content(i: int) -> str | None:
+        return next((ln for ln in lines[i + 1:] if ln.strip()), None)
+
+    above_flush = [i for i in residual if (next_content(i) or " ")[0] != " "]
+    if above_flush:
+        rec.count("cases_with_whitespace_only_line_above_an_unindented_line")      # section / admonition titles, prose, fields
+    if any((next_content(i) or "x")[0] == " " for i in residual):
+        rec.count("cases_with_whitespace_only_line_inside_an_indented_block")      # item descriptions, examples, admonition bodies
+    if any("\f" in f for f in w["fills"]) or any("\f" in t for t in w["tail"]):
+        rec.count("form_feed_cases_judged")
+    if w["margin_style"] != "spaces" or any("\t" in f for f in w["fills"]):
+        rec.count("tab_cases_judged")
+    if w["open"] != "same-line":
+        rec.count("text_opening_on_the_next_line_cases_judged")
+    if w["tail"]:
+        rec.count("trailing_whitespace_line_cases_judged")
+    rec.add_to_set("margins_written", f"{w['margin']}:{w['margin_style']}")
 
 
 HOSTILE = {"google": ["google-paren-colon", "google-attr-leak"], "numpy": ["numpy-documented-alias", "numpy-lone-name"], "sphinx": ["sphinx-type-after"]}
@@ -1573,6 +1869,8 @@ def run_shard(spec: dict, rec) -> None:  # noqa: ANN001
         struct = gen_struct(rng, style, hostile)
         if rng.random() < REUSE_SHARE:
             struct["history"] = gen_history(rng, struct)
+        if rng.random() < WRITING_SHARE:
+            struct["writing"] = gen_writing(rng, struct)
         run_case(rec, struct)
 
 
